@@ -67,6 +67,11 @@ class Api:
         for namespace in self.namespaces.values():
             namespace.normalize()
 
+        # The stone_cfg namespace is taken out of self.namespaces when the
+        # route schema is looked up; it stays reachable through the schema.
+        if self.route_schema is not None:
+            self.route_schema.namespace.normalize()
+
     def add_route_schema(self, route_schema):
         # type: (Struct) -> None
         assert self.route_schema is None
